@@ -787,6 +787,13 @@ def violations(rng, schema, pop, per_class=1, string_delims=False, missing_elem=
         lit = rng.choice(lits).replace("#REF", someref)
         out.append(Violation("wrong_kind", pop[ii].id, replaced(ii, _set_val(pop[ii], pi, ai, ("tok", lit))),
                              where(pop[ii], pi, ai, a) + ":" + re.sub(r"[^A-Za-z0-9#'.()\"]", "", lit)[:6]))
+    # a stray `/` (no comment) or `\` (no complete print control directive) in front of a parameter: ReadTokenSeparator drops
+    # it without a word - the malformed file reads clean (finding detect:stray-slash-or-backslash-between-parameters)
+    STRAY = ["/ ", "//", "\\N ", "\\"]
+    for k, (ii, pi, ai, a) in enumerate(positions(lambda a, v, i: v[0] == "tok" and a.kind in ("INTEGER", "REAL", "NUMBER", "STRING", "BOOLEAN", "LOGICAL", "ENUM", "BINARY"))):
+        pre = STRAY[k % len(STRAY)]
+        out.append(Violation("stray_separator", pop[ii].id, replaced(ii, _set_val(pop[ii], pi, ai, ("tok", pre + pop[ii].parts[pi][1][ai][1]))),
+                             where(pop[ii], pi, ai, a) + ":" + {"/ ": "slash", "//": "slashslash", "\\N ": "pcd-open", "\\": "backslash"}[pre]))
     if string_delims:
         for k, (ii, pi, ai, a) in enumerate(positions(lambda a, v, i: a.kind in STRING_DELIM_KINDS and v[0] != "null")):
             lit = STRING_DELIMS[rng.randrange(len(STRING_DELIMS))]
